@@ -680,7 +680,7 @@ def run(ctx, lean):
             ps = [p for p in probs if p[0] == kind]
             if ps and kind not in first:
                 small, sp = shrink(hist, table, lean, kind)
-                first[kind] = {'history': small.describe(), 'problem': (sp or ps)[0][1]}
+                first[kind] = {'problem': (sp or ps)[0][1], 'history': small.describe()}
     ctx.notes.append(f'histories: {n_hist}; totals {tot}')
     ctx.ob(names[1], 'shape' not in first and 'driver' not in first, 'tie', first.get('shape') or first.get('driver') or 'ok')
     ctx.ob(names[2], 'equal' not in first, 'tie', first.get('equal') or 'ok')
